@@ -256,9 +256,11 @@ def d2_single_return(ctx, idx):
                 r.violation('consolidate_single_return: result', 'result dictionary lacks %s' % sorted({'grade_decimal', 'ok', 'msg'} - set(d)), where)
                 continue
             for pc in (True, False):
-                for below in (True, False):
+                for below in (0.0, 0.5, 0.999999, 1.0):
                     feasible = True
                     for g in p.guards:
+                        if nf.match('n_expect is not None', g) is not None:
+                            continue
                         v = _eval_switch(g, pc, below)
                         if v is None:
                             r.undecided('consolidate_single_return: case split', 'guard `%s` not evaluable' % short(g), where)
@@ -270,12 +272,12 @@ def d2_single_return(ctx, idx):
                     if feasible:
                         table.setdefault((pc, below), []).append((p, d, where))
         for (pc, below), lst in sorted(table.items(), reverse=True):
-            construct = 'consolidate_single_return [partial_credit=%s, items %s]' % (pc, 'below full' if below else 'full')
+            construct = 'consolidate_single_return [partial_credit=%s, item credit %s]' % (pc, 'full' if below == 1.0 else below)
             for p, d, where in lst:
                 X = d['grade_decimal']
                 is_call = cm.is_call_to(X, 'consolidate_grades')
                 is_zero = isinstance(X, ast.Constant) and X.value == 0 and not isinstance(X.value, bool)
-                if (not pc) and below:
+                if (not pc) and below < 1:
                     if is_zero:
                         r.ok(construct, 'grade 0', where)
                     elif is_call:
@@ -299,7 +301,7 @@ def d2_single_return(ctx, idx):
                                     % (short(okv.args[0]), short(X)), where)
                     else:
                         r.undecided(construct + ': ok', "'ok' = `%s`" % short(okv), where)
-        for case in [(True, True), (True, False), (False, True), (False, False)]:
+        for case in [(a, b) for a in (True, False) for b in (0.0, 0.5, 0.999999, 1.0)]:
             if case not in table:
                 r.undecided('consolidate_single_return: case split', 'no path for partial_credit=%s, below=%s' % case, fi.loc)
         # the consolidated grade and the messages (same on every path: take the first)
@@ -341,7 +343,7 @@ def d2_single_return(ctx, idx):
 
 
 def _eval_switch(g, pc, below):
-    """Truth of a guard of consolidate_single_return for partial_credit=pc and consolidated grade (<1 if below else ==1)."""
+    """Truth of a guard of consolidate_single_return for partial_credit=pc and consolidated grade value `below`."""
     if isinstance(g, ast.UnaryOp) and isinstance(g.op, ast.Not):
         v = _eval_switch(g.operand, pc, below)
         return None if v is None else (not v)
@@ -352,7 +354,7 @@ def _eval_switch(g, pc, below):
         import operator as _op
         ops = {ast.Eq: _op.eq, ast.NotEq: _op.ne, ast.Lt: _op.lt, ast.LtE: _op.le, ast.Gt: _op.gt, ast.GtE: _op.ge}
         f = ops.get(type(g.ops[0]))
-        val = 0.5 if below else 1
+        val = below
         if f is None:
             if isinstance(g.ops[0], (ast.Is, ast.IsNot)) and cm.is_name(l, 'partial_credit') and isinstance(rr, ast.Constant):
                 return (pc is rr.value) if isinstance(g.ops[0], ast.Is) else (pc is not rr.value)
@@ -364,3 +366,663 @@ def _eval_switch(g, pc, below):
         if cm.is_name(l, 'partial_credit') and isinstance(rr, ast.Constant):
             return f(pc, rr.value)
     return None
+
+
+# ------------------------------------------------------------------------------- D3
+def d3_process(ctx, idx):
+    r = ctx.rule('D3.PROCESS', 'all_awarded = every item earned credit; answer message only under all_awarded; grade scaled '
+                 'by the answer credit and ok recomputed', floor=8)
+    with r:
+        fi = idx.func(SLG + '.process_grade_list')
+        if fi.params[1:] != ['grade_list', 'num_answers', 'msg', 'grade_decimal']:
+            raise AnalysisError('process_grade_list: parameters changed: %s' % fi.params)
+        selfn = fi.params[0]
+        csr = lib.one_call(fi, 'consolidate_single_return')
+        st = cm.enclosing_stmt(csr)
+        if not (isinstance(st, ast.Assign) and len(st.targets) == 1 and isinstance(st.targets[0], ast.Name) and st.value is csr):
+            raise AnalysisError('process_grade_list: result of consolidate_single_return is not bound to a local')
+        R = st.targets[0].id
+        a0 = csr.args[0] if csr.args else None
+        ne = lib.get_kw(csr, 'n_expect', 1)
+        pcv = lib.get_kw(csr, 'partial_credit', 2)
+        r.check(cm.is_name(a0, 'grade_list'), 'process_grade_list: consolidated list', 'grade_list',
+                'consolidate_single_return is given `%s`' % short(a0), lib.loc(fi, csr))
+        if cm.is_name(ne, 'num_answers'):
+            r.ok('process_grade_list: expected count', 'num_answers', lib.loc(fi, csr))
+        elif ne is None or cm.is_call_to(ne, 'len', 1):
+            r.violation('process_grade_list: expected count', 'the number of expected items is %s: surplus/missing items are measured against '
+                        'the submitted list itself' % ('not passed' if ne is None else '`%s`' % short(ne)), lib.loc(fi, csr),
+                        expected='n_expect=num_answers', found=short(csr, 100))
+        else:
+            r.undecided('process_grade_list: expected count', '`%s`' % short(ne), lib.loc(fi, csr))
+        if pcv is not None and lib.is_config(pcv, 'partial_credit'):
+            r.ok('process_grade_list: partial_credit', "config['partial_credit'] passed on", lib.loc(fi, csr))
+        elif pcv is None or isinstance(pcv, ast.Constant):
+            r.violation('process_grade_list: partial_credit', "config['partial_credit'] is no longer passed to consolidate_single_return "
+                        "(%s): the author's switch has no effect" % ('default True' if pcv is None else short(pcv)), lib.loc(fi, csr))
+        else:
+            r.undecided('process_grade_list: partial_credit', '`%s`' % short(pcv), lib.loc(fi, csr))
+        # all_awarded
+        aa = [s for s in walk_own(fi.node) if isinstance(s, ast.Assign) and len(s.targets) == 1 and cm.sub_key(s.targets[0]) == 'all_awarded'
+              and cm.is_name(s.targets[0].value, R)]
+        if not aa:
+            r.violation('process_grade_list: all_awarded published', "result['all_awarded'] is no longer set: an enclosing SingleListGrader "
+                        "reads item['all_awarded'] and fails with KeyError", fi.loc)
+            A = None
+            for k, v in lib.local_env(fi.node).items():
+                pass
+        else:
+            r.ok('process_grade_list: all_awarded published', "result['all_awarded'] set", lib.loc(fi, aa[0]))
+        A = aa[0].value.id if aa and isinstance(aa[0].value, ast.Name) else None
+        defs = [s for s in walk_own(fi.node) if isinstance(s, ast.Assign) and len(s.targets) == 1 and cm.is_name(s.targets[0], A)] if A else []
+        if A is None:
+            # fall back: the local used in the message guard
+            defs = [s for s in walk_own(fi.node) if isinstance(s, ast.Assign) and len(s.targets) == 1 and isinstance(s.targets[0], ast.Name)
+                    and isinstance(s.value, ast.Call) and nf.callee_name(s.value) in ('all', 'any')]
+            A = defs[0].targets[0].id if defs else None
+        if not defs:
+            raise AnalysisError('process_grade_list: definition of all_awarded not found')
+        seen = set()
+        for s in defs:
+            g = cm.guards_of(s, stop=fi.node)
+            nested = None
+            for x in g:
+                if nf.match("isinstance(%s.config['subgrader'], SingleListGrader)" % selfn, x) is not None:
+                    nested = True
+                elif nf.match("not isinstance(%s.config['subgrader'], SingleListGrader)" % selfn, x) is not None:
+                    nested = False
+            where = lib.loc(fi, s)
+            if nested is None:
+                r.undecided('process_grade_list: all_awarded', 'definition under unrecognised guard %s' % [short(x) for x in g], where)
+                continue
+            seen.add(nested)
+            if nested:
+                res = nf.classify(["all(_I['all_awarded'] for _I in grade_list)", "all([_I['all_awarded'] for _I in grade_list])"], s.value)
+                r.verdict('process_grade_list: all_awarded (nested lists)', res, where, ok_detail='all nested all_awarded',
+                          expected="all(item['all_awarded'] for item in grade_list)")
+            else:
+                res = nf.classify(["all(0 < _I['grade_decimal'] for _I in grade_list)", "all([0 < _I['grade_decimal'] for _I in grade_list])"],
+                                  s.value)
+                if isinstance(res, tuple):
+                    r.violation('process_grade_list: all_awarded (items)', res[1] + ': the answer message is shown although an item '
+                                'earned no credit (or withheld although all did)', where,
+                                expected="all(item['grade_decimal'] > 0 for item in grade_list)", found=short(s.value))
+                else:
+                    r.verdict('process_grade_list: all_awarded (items)', res, where, ok_detail='all item grades > 0',
+                              expected="all(item['grade_decimal'] > 0 for item in grade_list)")
+        if seen != {True, False}:
+            r.undecided('process_grade_list: all_awarded', 'cases covered: %s' % sorted(seen), fi.loc)
+        # answer message only under all_awarded
+        ms = [s for s in walk_own(fi.node) if isinstance(s, ast.Assign) and len(s.targets) == 1 and cm.sub_key(s.targets[0]) == 'msg'
+              and cm.is_name(s.targets[0].value, R)]
+        construct = 'process_grade_list: answer message'
+        if not ms:
+            r.violation(construct, "the answer-level message is never added to result['msg']", fi.loc)
+        for s in ms:
+            if not any(cm.is_name(n, 'msg') for n in ast.walk(s.value)):
+                r.undecided(construct, 'store `%s` does not use the answer message' % short(s), lib.loc(fi, s))
+                continue
+            g = cm.guards_of(s, stop=fi.node)
+            pos = any(cm.is_name(x, A) for x in g)
+            neg = any(isinstance(x, ast.UnaryOp) and isinstance(x.op, ast.Not) and cm.is_name(x.operand, A) for x in g)
+            if pos and not neg:
+                r.ok(construct, 'appended only when all_awarded', lib.loc(fi, s))
+            elif neg:
+                r.violation(construct, 'the answer message is shown exactly when NOT every item earned credit', lib.loc(fi, s),
+                            expected='if all_awarded and msg != \'\'', found=' and '.join(short(x) for x in g))
+            else:
+                r.violation(construct, 'the answer message is appended without requiring all_awarded (guards: %s): it is shown although '
+                            'some submitted or expected item earned no credit' % (' and '.join(short(x) for x in g) or 'none'),
+                            lib.loc(fi, s), expected='if all_awarded and msg != \'\'')
+            # the message keeps the item messages
+            v = s.value
+            keeps = any(cm.sub_key(n) == 'msg' and cm.is_name(n.value, R) for n in ast.walk(v))
+            r.check(keeps, construct + ' (item messages kept)', 'appended to the item messages',
+                    'the answer message replaces the item messages (`%s`)' % short(v), lib.loc(fi, s))
+        # scaling and ok
+        cfg = cfg_of(fi.node)
+        scal = [s for s in walk_own(fi.node) if isinstance(s, (ast.AugAssign, ast.Assign)) and
+                cm.sub_key(s.target if isinstance(s, ast.AugAssign) else s.targets[0]) == 'grade_decimal' and
+                cm.is_name((s.target if isinstance(s, ast.AugAssign) else s.targets[0]).value, R)]
+        construct = 'process_grade_list: answer credit'
+        if not scal:
+            r.violation(construct, "result['grade_decimal'] is never multiplied by the answer's own credit", fi.loc,
+                        expected="result['grade_decimal'] *= grade_decimal")
+        for s in scal:
+            c = nf.canon(s)
+            res = nf.classify("%s['grade_decimal'] * grade_decimal" % R, c.value)
+            if isinstance(res, tuple):
+                r.violation(construct, res[1], lib.loc(fi, s), expected="result['grade_decimal'] * grade_decimal", found=short(s))
+            else:
+                r.verdict(construct, res, lib.loc(fi, s), ok_detail='grade multiplied by the answer credit',
+                          expected="result['grade_decimal'] *= grade_decimal")
+        oks = [s for s in walk_own(fi.node) if isinstance(s, ast.Assign) and len(s.targets) == 1 and cm.sub_key(s.targets[0]) == 'ok'
+               and cm.is_name(s.targets[0].value, R)]
+        construct = 'process_grade_list: ok after scaling'
+        good = [s for s in oks if nf.match("_F.grade_decimal_to_ok(%s['grade_decimal'])" % R, s.value) is not None]
+        if scal:
+            if not good:
+                r.violation(construct, "after the grade is multiplied by the answer's credit 'ok' is not recomputed from it%s: a partial-credit "
+                            "answer reports ok=True with a grade below 1" % (' (`%s`)' % short(oks[0]) if oks else ''),
+                            lib.loc(fi, scal[0]), expected="result['ok'] = grade_decimal_to_ok(result['grade_decimal'])")
+            else:
+                starts = [n for s in scal for n in cfg.nodes_of(s)]
+                through = [n for s in good for n in cfg.nodes_of(s)]
+                r.check(cfg.must_pass(starts, through, exits='return'), construct, 'recomputed on every path after the scaling',
+                        "a path from the scaling of the grade to the return does not recompute 'ok' (it is computed before the scaling): "
+                        "a partial-credit answer reports ok=True with a grade below 1", lib.loc(fi, good[0]))
+        for ret in lib.returns_of(fi.node):
+            r.check(cm.is_name(ret.value, R), 'process_grade_list: return', 'the consolidated result',
+                    'returns `%s`' % short(ret.value), lib.loc(fi, ret))
+
+
+# ------------------------------------------------------------------------------- D4
+def d4_check_response(ctx, idx):
+    r = ctx.rule('D4.CHECK', 'split by the delimiter; length check, then blank-item check, then grading of the padded lists', floor=14)
+    with r:
+        fi = idx.func(SLG + '.check_response')
+        if fi.params[1:3] != ['answer', 'student_input']:
+            raise AnalysisError('check_response: parameters changed')
+        selfn = fi.params[0]
+        cfg = cfg_of(fi.node)
+        env = lib.local_env(fi.node)
+        # names by definition
+        def named(pred):
+            out = [k for k, v in env.items() if pred(v)]
+            return out[0] if len(out) == 1 else None
+        ANS = named(lambda v: nf.match("answer['expect']", v) is not None)
+        STU = named(lambda v: cm.is_call_to(v, 'split') and isinstance(v.func, ast.Attribute) and cm.is_name(v.func.value, 'student_input'))
+        if ANS is None or STU is None:
+            raise AnalysisError('check_response: locals for the expected list / the split submission not found')
+        split = env[STU]
+        construct = 'check_response: split'
+        if len(split.args) == 1 and lib.is_config(split.args[0], 'delimiter'):
+            r.ok(construct, "student_input.split(config['delimiter'])", lib.loc(fi, split))
+        elif len(split.args) >= 1 and isinstance(split.args[0], ast.Constant):
+            r.violation(construct, 'the submission is split on the literal %r, not on the configured delimiter' % split.args[0].value,
+                        lib.loc(fi, split), expected="config['delimiter']", found=short(split))
+        elif not split.args:
+            r.violation(construct, 'the submission is split on whitespace, not on the configured delimiter', lib.loc(fi, split))
+        else:
+            r.undecided(construct, '`%s`' % short(split), lib.loc(fi, split))
+        # the two raises
+        raises = lib.raises_of(fi.node)
+        length_r, blank_r = [], []
+        for rs in raises:
+            g = [nf.canon(lib.inline_locals(x, fi.node)) if False else x for x in cm.guards_of(rs, stop=fi.node)]
+            keys = {k for x in g for n in ast.walk(x) for k in [nf.config_key(n)] if k}
+            if 'length_error' in keys:
+                length_r.append((rs, g))
+            elif 'missing_error' in keys:
+                blank_r.append((rs, g))
+            else:
+                r.undecided('check_response: raise', 'raise under unrecognised guards %s' % [short(x) for x in g], lib.loc(fi, rs))
+        grading = lib.calls_named(fi.node, ('get_padded_lists', 'find_optimal_order', 'padded_check'))
+        if not grading:
+            raise AnalysisError('check_response: grading calls not found')
+        for what, lst, flag in (('length', length_r, 'length_error'), ('blank-item', blank_r, 'missing_error')):
+            construct = 'check_response: %s error' % what
+            if not lst:
+                r.violation(construct, "no raise is guarded by config['%s'] any more: %s is graded instead of refused" % (
+                    flag, 'a wrong number of items' if what == 'length' else 'a blank item'), fi.loc)
+                continue
+            for rs, g in lst:
+                cls = nf.exc_class_name(rs.exc)
+                if lib.exc_is_subclass(idx, fi.module, cls, 'StudentFacingError'):
+                    r.ok(construct + ' class', cls, lib.loc(fi, rs))
+                    if cls != 'MissingInput':
+                        r.note('%s error raised as %s rather than MissingInput' % (what, cls))
+                else:
+                    r.violation(construct + ' class', 'the %s error is raised as %s, which is not a student-facing error: the student sees '
+                                'a configuration/generic error instead of the explanation' % (what, cls), lib.loc(fi, rs),
+                                expected='MissingInput (StudentFacingError)', found=cls)
+        if length_r:
+            rs, g = length_r[0]
+            construct = 'check_response: length condition'
+            conj = ast.BoolOp(op=ast.And(), values=list(g)) if len(g) > 1 else g[0]
+            res = nf.classify(["%s.config['length_error'] and len(%s) != len(%s)" % (selfn, ANS, STU)], conj)
+            if isinstance(res, tuple):
+                r.violation(construct, res[1], lib.loc(fi, rs), expected="config['length_error'] and len(answers) != len(student_list)",
+                            found=short(conj))
+            else:
+                r.verdict(construct, res, lib.loc(fi, rs), ok_detail='length_error and the counts differ',
+                          expected="config['length_error'] and len(answers) != len(student_list)")
+        if blank_r:
+            rs, g = blank_r[0]
+            construct = 'check_response: blank-item condition'
+            pos_flag = any(lib.is_config(x, 'missing_error') for x in g)
+            rest = [x for x in g if not lib.is_config(x, 'missing_error')]
+            if not pos_flag:
+                r.violation(construct, "the blank-item error is raised when config['missing_error'] is false", lib.loc(fi, rs))
+            bl = [x for x in rest if isinstance(x, ast.Name)]
+            comp = cm.deref(fi, bl[0]) if bl else None
+            if comp is None or not isinstance(comp, ast.ListComp):
+                others = [x for x in rest if not (cm.is_call_to(x, 'len') or isinstance(x, ast.Compare))]
+                if not rest:
+                    r.violation(construct, 'the error is raised for every submission when missing_error is set', lib.loc(fi, rs))
+                else:
+                    r.undecided(construct, 'guards %s' % [short(x) for x in rest], lib.loc(fi, rs))
+            else:
+                gen = comp.generators[0]
+                src_ok = len(comp.generators) == 1 and any(cm.is_name(n, STU) for n in ast.walk(gen.iter)) and len(gen.ifs) == 1
+                if not src_ok:
+                    r.undecided(construct, 'blank-item scan `%s`' % short(comp), lib.loc(fi, comp))
+                else:
+                    res = nf.classify(["_I.strip() == ''", "not _I.strip()"], gen.ifs[0])
+                    if isinstance(res, tuple):
+                        r.violation(construct, 'blank items are detected by `%s` (%s)' % (short(gen.ifs[0]), res[1]), lib.loc(fi, comp),
+                                    expected="item.strip() == ''", found=short(gen.ifs[0]))
+                    elif res == nf.MATCH:
+                        r.ok(construct, "missing_error and some item.strip() == ''", lib.loc(fi, comp))
+                    elif nf.match("_I == ''", gen.ifs[0]) is not None:
+                        r.violation(construct, "only exactly empty items count as blank: ' ' (spaces) is graded instead of refused",
+                                    lib.loc(fi, comp), expected="item.strip() == ''", found=short(gen.ifs[0]))
+                    else:
+                        r.undecided(construct, 'blank test `%s`' % short(gen.ifs[0]), lib.loc(fi, comp))
+        # order: length test before blank test before grading
+        if length_r and blank_r:
+            ln = [n for rs, g in length_r for n in cfg.nodes_of(rs)]
+            bn = [n for rs, g in blank_r for n in cfg.nodes_of(rs)]
+            l_if = _outer_if(length_r[0][0], fi.node)
+            b_if = _outer_if(blank_r[0][0], fi.node)
+            ltest, btest = cfg.nodes_of(l_if), cfg.nodes_of(b_if)
+            construct = 'check_response: order of the checks'
+            if cfg.dominates(ltest, btest):
+                r.ok(construct, 'the length check comes first', lib.loc(fi, l_if))
+            elif cfg.dominates(btest, ltest):
+                r.violation(construct, 'the blank-item check runs before the length check: when both apply the student gets the blank-item '
+                            'message instead of the preferred length message', lib.loc(fi, b_if))
+            else:
+                r.undecided(construct, 'neither check dominates the other', lib.loc(fi, l_if))
+            gn = [n for c in grading for n in cfg.nodes_containing(c)]
+            r.check(cfg.dominates(ltest, gn) and cfg.dominates(btest, gn), 'check_response: checks before grading', 'both checks dominate grading',
+                    'grading starts on a path that has not passed the length / blank-item checks', lib.loc(fi, grading[0]))
+        _grading(r, idx, fi, selfn, ANS, STU)
+
+
+def _outer_if(node, stop):
+    out = None
+    for a in ancestors(node):
+        if isinstance(a, ast.If):
+            out = a
+        if a is stop:
+            break
+    if out is None:
+        raise AnalysisError('raise is not guarded by an if')
+    return out
+
+
+def _grading(r, idx, fi, selfn, ANS, STU):
+    env = lib.local_env(fi.node)
+    gpl = lib.one_call(fi, 'get_padded_lists')
+    st = cm.enclosing_stmt(gpl)
+    construct = 'check_response: padding'
+    if not (isinstance(st, ast.Assign) and len(st.targets) == 1 and isinstance(st.targets[0], ast.Tuple) and len(st.targets[0].elts) == 2
+            and all(isinstance(e, ast.Name) for e in st.targets[0].elts) and len(gpl.args) == 2):
+        r.undecided(construct, '`%s`' % short(st), lib.loc(fi, st))
+        return
+    roles = {}
+    for t, a in zip(st.targets[0].elts, gpl.args):
+        roles[t.id] = 'answers' if cm.is_name(a, ANS) else 'inputs' if cm.is_name(a, STU) else None
+    if sorted(v or '' for v in roles.values()) != ['answers', 'inputs']:
+        r.undecided(construct, 'get_padded_lists(%s)' % ', '.join(short(a) for a in gpl.args), lib.loc(fi, gpl))
+        return
+    r.ok(construct, 'both lists padded', lib.loc(fi, gpl))
+    PA = [k for k, v in roles.items() if v == 'answers'][0]
+    PS = [k for k, v in roles.items() if v == 'inputs'][0]
+    pc = lib.one_call(fi, 'padded_check')
+    pst = cm.enclosing_stmt(pc)
+    CK = pst.targets[0].id if isinstance(pst, ast.Assign) and len(pst.targets) == 1 and isinstance(pst.targets[0], ast.Name) else None
+    construct = 'check_response: checker'
+    if CK is None:
+        r.undecided(construct, 'padded_check(...) not bound to a local', lib.loc(fi, pc))
+        return
+    a = pc.args[0] if pc.args else None
+    good = a is not None and isinstance(a, ast.Attribute) and a.attr == 'check' and lib.is_config(a.value, 'subgrader')
+    r.check(good, construct, "padded_check(config['subgrader'].check)", 'padded_check wraps `%s`' % short(a), lib.loc(fi, pc))
+
+    def role_of(e):
+        if cm.is_name(e, PA):
+            return 'padded answers'
+        if cm.is_name(e, PS):
+            return 'padded inputs'
+        if cm.is_name(e, ANS):
+            return 'unpadded answers'
+        if cm.is_name(e, STU):
+            return 'unpadded inputs'
+        return None
+    # the two branches
+    foo = lib.calls_named(fi.node, 'find_optimal_order')
+    branches = {}
+    for c in foo:
+        g = cm.guards_of(c, stop=fi.node)
+        ordered = None
+        for x in g:
+            if lib.is_config(x, 'ordered'):
+                ordered = True
+            elif isinstance(x, ast.UnaryOp) and isinstance(x.op, ast.Not) and lib.is_config(x.operand, 'ordered'):
+                ordered = False
+        branches.setdefault('unordered', []).append((c, ordered))
+    construct = 'check_response: unordered grading'
+    if not foo:
+        r.violation(construct, 'find_optimal_order is no longer called: unordered lists are graded positionally', fi.loc)
+    for c, ordered in branches.get('unordered', []):
+        where = lib.loc(fi, c)
+        if ordered is True:
+            r.violation(construct, "the optimal assignment is used when config['ordered'] is true (and the positional zip when it is false)", where)
+            continue
+        if ordered is None:
+            r.undecided(construct, "call not guarded by config['ordered']", where)
+            continue
+        if len(c.args) != 3:
+            r.undecided(construct, '`%s`' % short(c), where)
+            continue
+        f, x, y = c.args
+        if not cm.is_name(f, CK):
+            if isinstance(f, ast.Attribute) and f.attr == 'check':
+                r.violation(construct, 'the raw subgrader check is used instead of the padded checker: padding objects reach the subgrader', where)
+            else:
+                r.undecided(construct, 'checker `%s`' % short(f), where)
+            continue
+        got = (role_of(x), role_of(y))
+        if got == ('padded answers', 'padded inputs'):
+            r.ok(construct, 'find_optimal_order(checker, padded answers, padded inputs)', where)
+        elif got == ('padded inputs', 'padded answers'):
+            r.violation(construct, 'answers and inputs are exchanged in find_optimal_order(...)', where)
+        elif None not in got:
+            r.violation(construct, 'find_optimal_order receives the %s and the %s: missing or surplus items are not matched against '
+                        'automatic failures, so they are neither penalised nor counted for all_awarded' % got, where,
+                        expected='(checker, %s, %s)' % (PA, PS), found=short(c))
+        else:
+            r.undecided(construct, '`%s`' % short(c), where)
+    # ordered branch: comprehension calling the checker over zip(padded answers, padded inputs)
+    construct = 'check_response: ordered grading'
+    zips = [n for n in ast.walk(fi.node) if cm.is_call_to(n, 'zip', 2) and all(role_of(a) for a in n.args)]
+    if len(zips) != 1:
+        r.undecided(construct, 'positional zip not found (%d candidates)' % len(zips), fi.loc)
+        return
+    z = zips[0]
+    where = lib.loc(fi, z)
+    comp = None
+    for a_ in ancestors(z):
+        if isinstance(a_, (ast.ListComp, ast.GeneratorExp)):
+            comp = a_
+            break
+        if isinstance(a_, ast.stmt):
+            break
+    g = cm.guards_of(z, stop=fi.node)
+    ordered = any(lib.is_config(x, 'ordered') for x in g)
+    if not ordered:
+        r.violation(construct, "the positional zip is not used under config['ordered'] (guards: %s)" % (' and '.join(short(x) for x in g) or 'none'), where)
+        return
+    got = tuple(role_of(a) for a in z.args)
+    if comp is None or len(comp.generators) != 1 or comp.generators[0].ifs:
+        r.undecided(construct, 'zip is not the source of a plain comprehension', where)
+        return
+    gen = comp.generators[0]
+    call = comp.elt
+    if not (isinstance(call, ast.Call) and (cm.is_name(call.func, CK) or (isinstance(call.func, ast.Attribute) and call.func.attr == 'check'))):
+        r.undecided(construct, 'element `%s`' % short(call), where)
+        return
+    if not cm.is_name(call.func, CK):
+        r.violation(construct, 'the raw subgrader check is used instead of the padded checker: padding objects reach the subgrader', where)
+        return
+    # argument order: checker(*pair) or checker(a, b)
+    order = None
+    if len(call.args) == 1 and isinstance(call.args[0], ast.Starred) and isinstance(gen.target, ast.Name) and cm.is_name(call.args[0].value, gen.target.id):
+        order = [0, 1]
+    elif len(call.args) == 2 and all(isinstance(a, ast.Name) for a in call.args):
+        order = [cm.target_pos(gen.target, a.id) for a in call.args]
+    if order is None or None in order:
+        r.undecided(construct, 'arguments of `%s`' % short(call), where)
+        return
+    eff = (got[order[0]], got[order[1]])
+    if eff == ('padded answers', 'padded inputs'):
+        r.ok(construct, 'checker(answer_k, input_k) over the padded lists', where)
+    elif eff == ('padded inputs', 'padded answers'):
+        r.violation(construct, 'the checker is called as checker(input, answer): answers and inputs are exchanged', where)
+    else:
+        r.violation(construct, 'the positional zip runs over the %s and the %s: zip stops at the shorter list, so surplus items are not '
+                    'penalised and missing items do not clear all_awarded' % eff, where, expected='zip(%s, %s)' % (PA, PS), found=short(z))
+    # hand-over to process_grade_list
+    pg = lib.one_call(fi, 'process_grade_list')
+    construct = 'check_response: process_grade_list arguments'
+    if len(pg.args) != 4:
+        r.undecided(construct, '`%s`' % short(pg), lib.loc(fi, pg))
+        return
+    gl, na, ms, gd = pg.args
+    where = lib.loc(fi, pg)
+    if cm.is_call_to(na, 'len', 1) and cm.is_name(na.args[0], ANS):
+        r.ok(construct + ' (expected count)', 'len(answers)', where)
+    elif cm.is_call_to(na, 'len', 1):
+        r.violation(construct + ' (expected count)', 'the number of expected items is taken from `%s`: surplus and missing items are no longer '
+                    'measured against the expected list' % short(na), where, expected='len(%s)' % ANS, found=short(na))
+    else:
+        r.undecided(construct + ' (expected count)', '`%s`' % short(na), where)
+    for e, key, what in ((ms, 'msg', 'message'), (gd, 'grade_decimal', 'credit')):
+        vals = cm.reaching_defs(fi, e) if isinstance(e, ast.Name) else [e]
+        good = len(vals) == 1 and isinstance(vals[0], ast.AST) and nf.match("answer['%s']" % key, vals[0]) is not None
+        if good:
+            r.ok(construct + ' (%s)' % what, "answer['%s']" % key, where)
+        elif len(vals) == 1 and isinstance(vals[0], ast.AST) and cm.sub_key(vals[0]) in ('msg', 'grade_decimal'):
+            r.violation(construct + ' (%s)' % what, "the answer's %s is taken from `%s`" % (what, short(vals[0])), where)
+        elif len(vals) == 1 and isinstance(vals[0], ast.Constant):
+            r.violation(construct + ' (%s)' % what, "the answer's own %s is replaced by the constant %r" % (what, vals[0].value), where)
+        else:
+            r.undecided(construct + ' (%s)' % what, 'value reaching the call: %s' % [short(v) if isinstance(v, ast.AST) else v for v in vals], where)
+    gv = cm.reaching_defs(fi, gl) if isinstance(gl, ast.Name) else []
+    r.check(len(gv) >= 1 and all(isinstance(v, ast.AST) for v in gv), construct + ' (grades)', 'the graded list',
+            'process_grade_list does not receive the graded list', where)
+    for ret in lib.returns_of(fi.node):
+        r.check(ret.value is pg, 'check_response: return', 'the processed result', 'returns `%s`' % short(ret.value), lib.loc(fi, ret))
+
+
+# ------------------------------------------------------------------------------- D5
+def d5_padding(ctx, idx):
+    r = ctx.rule('D5.PAD', 'automatic failures on either side score zero with all_awarded False; both lists are padded to the '
+                 'common maximum on copies', floor=8)
+    with r:
+        outer = idx.func(cm.LG_MOD + '.padded_check')
+        inner_q = cm.LG_MOD + '.padded_check.<locals>._check'
+        inners = [f for q, f in idx.funcs.items() if q.startswith(cm.LG_MOD + '.padded_check.<locals>.')]
+        if len(inners) != 1:
+            raise AnalysisError('padded_check: expected one nested checker')
+        inner = inners[0]
+        for ret in lib.returns_of(outer.node):
+            r.check(cm.is_name(ret.value, inner.name), 'padded_check: return', 'the wrapping checker',
+                    'padded_check returns `%s`, not the wrapper: automatic failures reach the subgrader' % short(ret.value), lib.loc(outer, ret))
+        if len(inner.params) != 2:
+            raise AnalysisError('padded_check._check: parameters changed')
+        A, I = inner.params
+        paths = nf.decision_paths(inner.node.body)
+        seen = set()
+        for p in paths:
+            where = lib.loc(inner, p.leaf.stmt) if p.leaf.stmt is not None else inner.loc
+            if p.leaf.kind != 'ret':
+                r.violation('padded_check: result', 'a path returns nothing / raises', where)
+                continue
+            e = p.leaf.expr
+            if isinstance(e, ast.Dict):
+                seen.add('zero')
+                d = {k.value: nf.const_value(v, '?') for k, v in zip(e.keys, e.values) if isinstance(k, ast.Constant)}
+                want = {'ok': False, 'msg': '', 'grade_decimal': 0, 'all_awarded': False}
+                for k, w in want.items():
+                    construct = "padded_check: automatic failure result['%s']" % k
+                    if k not in d:
+                        r.violation(construct, "key '%s' missing from the automatic-failure result%s" % (
+                            k, ": an enclosing list reads item['all_awarded'] (KeyError)" if k == 'all_awarded' else ''), where)
+                    elif d[k] == w and type(d[k]) is type(w):
+                        r.ok(construct, repr(w), where)
+                    elif d[k] == '?':
+                        r.undecided(construct, 'not a literal', where)
+                    else:
+                        r.violation(construct, "an automatic failure (missing or surplus item) yields %s=%r instead of %r%s" % (
+                            k, d[k], w, ': the answer message is shown although an item is missing/surplus' if k == 'all_awarded' else ''),
+                            where, expected=repr(w), found=repr(d[k]))
+                conj = ast.BoolOp(op=ast.And(), values=list(p.guards)) if len(p.guards) > 1 else (p.guards[0] if p.guards else None)
+                construct = 'padded_check: automatic failure condition'
+                if conj is None:
+                    r.violation(construct, 'every pair is failed automatically', where)
+                else:
+                    res = nf.classify('isinstance(%s, _AutomaticFailure) or isinstance(%s, _AutomaticFailure)' % (A, I), conj)
+                    if isinstance(res, tuple):
+                        r.violation(construct, res[1] + ': a padding object on one side reaches the subgrader (error) or is graded', where,
+                                    expected='either side is an _AutomaticFailure', found=short(conj))
+                    elif res == nf.MATCH:
+                        r.ok(construct, 'either side is an _AutomaticFailure', where)
+                    else:
+                        alt = nf.match('isinstance(_X, _AutomaticFailure)', conj)
+                        if alt is not None:
+                            r.violation(construct, 'only `%s` is tested for _AutomaticFailure: padding on the other side reaches the subgrader'
+                                        % short(alt['_X']), where, expected='either side', found=short(conj))
+                        else:
+                            r.undecided(construct, '`%s`' % short(conj), where)
+            elif isinstance(e, ast.Call) and cm.is_name(e.func, outer.params[0]):
+                seen.add('delegate')
+                construct = 'padded_check: delegation'
+                if len(e.args) == 2 and cm.is_name(e.args[0], A) and cm.is_name(e.args[1], I):
+                    r.ok(construct, 'check(ans, inp)', where)
+                elif len(e.args) == 2 and cm.is_name(e.args[0], I) and cm.is_name(e.args[1], A):
+                    r.violation(construct, 'check is called as check(inp, ans): answer and input exchanged', where)
+                else:
+                    r.undecided(construct, '`%s`' % short(e), where)
+            else:
+                r.undecided('padded_check: result', '`%s`' % short(e), where)
+        if seen != {'zero', 'delegate'}:
+            r.undecided('padded_check: result', 'paths found: %s' % sorted(seen), inner.loc)
+        # get_padded_lists
+        gp = idx.func(cm.LG_MOD + '.get_padded_lists')
+        if len(gp.params) != 2:
+            raise AnalysisError('get_padded_lists: parameters changed')
+        L1, L2 = gp.params
+        muts, fx = cm.param_mutations(gp, idx)
+        if muts:
+            for node, how, pn in muts:
+                r.violation('get_padded_lists: parameter %s' % pn, "the caller's list is extended in place (%s): the grader's configured "
+                            "answers grow by an _AutomaticFailure on every short submission" % how, lib.loc(gp, node))
+        else:
+            r.ok('get_padded_lists: parameters', 'not mutated', gp.loc)
+        rets = lib.returns_of(gp.node)
+        if len(rets) != 1 or not (isinstance(rets[0].value, ast.Tuple) and len(rets[0].value.elts) == 2):
+            raise AnalysisError('get_padded_lists: expected `return a, b`')
+        for pos, (e, L) in enumerate(zip(rets[0].value.elts, (L1, L2))):
+            construct = 'get_padded_lists: padded list %d' % (pos + 1)
+            v = cm.deref(gp, e)
+            where = lib.loc(gp, v) if hasattr(v, 'lineno') else gp.loc
+            vv = nf.canon(lib.inline_locals(v, gp.node))
+            other = L2 if L == L1 else L1
+            pats = ['%s + [_AutomaticFailure()] * (max(len(%s), len(%s)) - len(%s))' % (L, L1, L2, L)]
+            res = nf.classify(pats, vv)
+            if res == nf.MATCH:
+                r.ok(construct, 'list + failures up to max(len1, len2)', where)
+            elif cm.is_name(vv, L) or (isinstance(vv, ast.Subscript) and isinstance(vv.slice, ast.Slice) and cm.is_name(vv.value, L)) \
+                    or (cm.is_call_to(vv, 'list', 1) and cm.is_name(vv.args[0], L)):
+                r.violation(construct, 'list %d is returned without padding: when it is the shorter one the positional zip / the matching '
+                            'silently drops the unmatched items of the other list (surplus not penalised, missing items do not clear '
+                            'all_awarded)' % (pos + 1), where, expected=pats[0], found=short(v))
+            elif any(cm.is_name(n, other) for n in ast.walk(vv) if isinstance(n, ast.Name)) and not any(
+                    cm.is_name(n, L) for n in [vv.left] if isinstance(vv, ast.BinOp)):
+                r.violation(construct, 'position %d of the result is built from the other list (`%s`)' % (pos + 1, short(v)), where)
+            elif isinstance(res, tuple):
+                r.violation(construct, res[1], where, expected=pats[0], found=short(vv))
+            else:
+                r.undecided(construct, '`%s`' % short(vv), where)
+
+
+# ------------------------------------------------------------------------------- D6
+def d6_infer(ctx, idx):
+    r = ctx.rule('D6.INFER', "string answers are split on the grader's own delimiter, nested lists by the nested grader", floor=5)
+    with r:
+        fi = idx.func(SLG + '.infer_from_expect')
+        selfn = fi.params[0]
+        if fi.params[1:] != ['expect']:
+            raise AnalysisError('infer_from_expect: parameters changed')
+        splits = [c for c in lib.calls_named(fi.node, 'split') if isinstance(c.func, ast.Attribute) and cm.is_name(c.func.value, 'expect')]
+        if len(splits) != 1:
+            raise AnalysisError('infer_from_expect: expect.split(...) not found')
+        sp = splits[0]
+        construct = 'SingleListGrader.infer_from_expect: split'
+        if len(sp.args) == 1 and cm.is_self_attr(getattr(sp.args[0], 'value', None), selfn, 'config') and lib.is_config(sp.args[0], 'delimiter'):
+            r.ok(construct, "expect.split(self.config['delimiter'])", lib.loc(fi, sp))
+        elif sp.args and isinstance(sp.args[0], ast.Constant):
+            r.violation(construct, 'the expected string is split on the literal %r, not on this grader\'s delimiter' % sp.args[0].value,
+                        lib.loc(fi, sp), expected="self.config['delimiter']", found=short(sp))
+        elif sp.args and lib.is_config(sp.args[0], 'delimiter'):
+            r.violation(construct, 'the expected string is split on `%s`, another grader\'s delimiter' % short(sp.args[0]), lib.loc(fi, sp),
+                        expected="self.config['delimiter']", found=short(sp))
+        else:
+            r.undecided(construct, '`%s`' % short(sp), lib.loc(fi, sp))
+        st = cm.enclosing_stmt(sp)
+        OUT = st.targets[0].id if isinstance(st, ast.Assign) and len(st.targets) == 1 and isinstance(st.targets[0], ast.Name) else None
+        for ret in lib.returns_of(fi.node):
+            r.check(OUT is not None and cm.is_name(ret.value, OUT), 'SingleListGrader.infer_from_expect: return', 'the split list',
+                    'returns `%s`' % short(ret.value), lib.loc(fi, ret))
+        rec = [c for c in lib.calls_named(fi.node, 'infer_from_expect')]
+        construct = 'SingleListGrader.infer_from_expect: nested lists'
+        if not rec:
+            r.violation(construct, 'nested SingleListGraders are no longer asked to split their part: a nested answer stays a string',
+                        fi.loc)
+        for c in rec:
+            where = lib.loc(fi, c)
+            recv = c.func.value if isinstance(c.func, ast.Attribute) else None
+            g = cm.guards_of(c, stop=fi.node)
+            guarded = any(nf.match("isinstance(%s.config['subgrader'], SingleListGrader)" % selfn, x) is not None for x in g)
+            if recv is not None and lib.is_config(recv, 'subgrader'):
+                stx = cm.enclosing_stmt(c)
+                loop = [a for a in ancestors(c) if isinstance(a, ast.For)]
+                elem_ok = False
+                if loop and cm.is_call_to(loop[0].iter, 'enumerate', 1) and cm.is_name(loop[0].iter.args[0], OUT) \
+                        and isinstance(loop[0].target, ast.Tuple) and len(loop[0].target.elts) == 2 and len(c.args) == 1:
+                    iv, ev = [e.id for e in loop[0].target.elts]
+                    elem_ok = cm.is_name(c.args[0], ev) and isinstance(stx, ast.Assign) and len(stx.targets) == 1 and \
+                        nf.match('%s[%s]' % (OUT, iv), stx.targets[0]) is not None
+                elif isinstance(stx, ast.Assign) and isinstance(stx.value, ast.ListComp):
+                    gen = stx.value.generators[0]
+                    elem_ok = cm.is_name(gen.iter, OUT) and isinstance(gen.target, ast.Name) and len(c.args) == 1 and cm.is_name(c.args[0], gen.target.id)
+                if not guarded:
+                    r.violation(construct, 'the recursion is not restricted to nested SingleListGraders: any subgrader\'s infer_from_expect '
+                                'is applied to the items', where)
+                elif elem_ok:
+                    r.ok(construct, "each item replaced by config['subgrader'].infer_from_expect(item)", where)
+                else:
+                    r.undecided(construct, 'element-wise replacement not recognised around `%s`' % short(stx), where)
+            elif recv is not None and cm.is_name(recv, selfn):
+                r.violation(construct, 'the recursion calls self.infer_from_expect: nested items are split again on the *outer* delimiter '
+                            'instead of the nested grader\'s', where, expected="self.config['subgrader'].infer_from_expect(entry)", found=short(c))
+            else:
+                r.undecided(construct, 'receiver `%s`' % short(recv), where)
+        # post_schema_ans_val converts exactly the strings
+        ps = idx.func(SLG + '.post_schema_ans_val')
+        calls = lib.calls_named(ps.node, 'infer_from_expect', own=False)
+        construct = 'SingleListGrader.post_schema_ans_val: string answers'
+        if not calls:
+            r.violation(construct, 'string-form answers are no longer converted to lists', ps.loc)
+        for c in calls:
+            where = lib.loc(ps, c)
+            ife = [a for a in ancestors(c) if isinstance(a, ast.IfExp)]
+            if ife:
+                e = ife[0]
+                inbody = any(n is c for n in ast.walk(e.body))
+                test = nf.canon(e.test) if inbody else nf.negate(nf.canon(e.test))
+                arg = c.args[0] if c.args else None
+                m = nf.match('isinstance(_X, str)', test)
+                if m is not None and arg is not None and nf.equal(m['_X'], nf.canon(arg)):
+                    other = e.orelse if inbody else e.body
+                    r.check(nf.equal(nf.canon(other), nf.canon(arg)), construct, 'strings split, lists kept',
+                            'non-string answers are replaced by `%s`' % short(other), where)
+                else:
+                    res = nf.classify('isinstance(%s, str)' % (short(arg) if isinstance(arg, ast.Name) else '_X'), test)
+                    if isinstance(res, tuple):
+                        r.violation(construct, 'answers are converted when `%s` (%s): lists are split as if they were strings and strings '
+                                    'are left alone' % (short(test), res[1]), where, expected='isinstance(x, str)', found=short(test))
+                    else:
+                        r.undecided(construct, 'condition `%s`' % short(test), where)
+            else:
+                g = cm.guards_of(c, stop=ps.node)
+                if any(nf.match('isinstance(_X, str)', x) is not None for x in g):
+                    r.ok(construct, 'strings split', where)
+                else:
+                    r.violation(construct, 'every answer is passed to infer_from_expect, also lists (no isinstance(x, str) test)', where)
+            recv = c.func.value if isinstance(c.func, ast.Attribute) else None
+            r.check(cm.is_name(recv, ps.params[0]), construct + ' (receiver)', 'self.infer_from_expect',
+                    'conversion uses `%s`' % short(c.func), where)
